@@ -164,6 +164,14 @@ func (g *gen) expr(depth int) *Expr {
 		for i := 0; i < n; i++ {
 			e.Kids = append(e.Kids, g.expr(depth-1))
 		}
+		if g.r.Intn(12) == 0 {
+			// an empty element ( () or '' ) somewhere in the sequence, often last
+			at := len(e.Kids)
+			if g.r.Intn(3) == 0 {
+				at = g.r.Intn(len(e.Kids) + 1)
+			}
+			e.Kids = append(e.Kids[:at:at], append([]*Expr{{K: KNil}}, e.Kids[at:]...)...)
+		}
 		return e
 	case 1:
 		n := p.AltMin + g.r.Intn(p.AltMax-p.AltMin+1)
@@ -548,6 +556,11 @@ func ChoiceHeavy(r *rand.Rand) *Grammar {
 		var choice func(depth int) *Expr
 		tail := func() []*Expr {
 			var t []*Expr
+			defer func() {
+				if len(t) > 0 && r.Intn(10) == 0 {
+					t = append(t, &Expr{K: KNil}) // a trailing empty element
+				}
+			}()
 			for i := r.Intn(3); i > 0; i-- {
 				switch r.Intn(6) {
 				case 0:
